@@ -291,6 +291,118 @@ def part_d(rep, hbin, tier, seed, cov):
     return 1, (1 if ok else 0)
 
 
+def part_e(rep, hbin, tier, seed, cov):
+    """Key text (FromStr / Display of DescriptorPublicKey): real parser + printer vs KeyTextModel, inside Coq."""
+    tdir = os.path.join(vlib.COQ, "Tables")
+    # statements file of this part (registered by the coordinator on merge; gated here the same way)
+    t2, b2, pr2, _ = vlib.check_property_file("C10KeyText")
+    if pr2:
+        rep.violation("property-file", "; ".join(pr2),
+                      {"property": PID, "broken_tie": "Properties/C10KeyText.v", "problems": pr2}, found_input=False)
+    cov.setdefault("theorems_extra", []).extend(t2)
+    cov["key_text_print_assumptions"] = [("closed" if b["closed"] else ",".join(b["axioms"])) for b in b2]
+    n_ob = len(t2) + 1
+    n_ok = len(t2) if not pr2 else 0
+    p = vlib.sh([hbin, "keytext", str(seed), tier], env={"VERIF_TIER": tier}, timeout=3000)
+    if p.returncode != 0:
+        raise RuntimeError("keytext engine failed: %s" % p.stderr[-2000:])
+    open(os.path.join(tdir, "KeyTextCasesGen.v"), "w").write(p.stdout)
+    m = re.search(r"KEYTEXT cases=(\d+) accepted=(\d+) reparse_ok=(\d+) kinds=(\{.*?\}) outcomes=(\{.*?\}) shapes=(\{.*?\})", p.stderr)
+    cov["key_text_layer"] = {
+        "cases": int(m.group(1)) if m else 0,
+        "accepted": int(m.group(2)) if m else 0,
+        "accepted_whose_printed_text_reparses_equal": int(m.group(3)) if m else 0,
+        "kinds": json.loads(m.group(4)) if m else {},
+        "outcomes[ok-*, errN = error class of DescriptorPublicKey::from_str as numbered in KeyTextModel.key_err_code]": json.loads(m.group(5)) if m else {},
+        "shapes_of_accepted_keys": json.loads(m.group(6)) if m else {},
+        "compared": "structure dump (origin, body, path(s), wildcard) or error class; Display text; reparse-equal flag; body validity from the bitcoin crate"}
+    cov.setdefault("samples", []).extend(re.findall(r"KEYTEXTSAMPLE (.*)", p.stderr)[:4])
+    # keys built as VALUES on the BIP32 depth limit (depth + steps + wildcard = 253..256, xpub depth 0 / 5 / 250,
+    # every wildcard, single path and multipath): Display then FromStr must give back an equal value when the
+    # total is <= 255 (C10_key_print_parse: these values are wf_dkey); judged on the real code only
+    mv = re.search(r"KEYVALUES n=(\d+) within_limit=(\d+) within_limit_roundtrip_ok=(\d+) over_limit=(\d+) over_limit_rejected=(\d+)", p.stderr)
+    cov["key_text_layer"]["values_on_the_depth_limit"] = {
+        "constructed": int(mv.group(1)) if mv else 0, "total<=255": int(mv.group(2)) if mv else 0,
+        "total<=255_printed_then_parsed_equal": int(mv.group(3)) if mv else 0,
+        "total=256": int(mv.group(4)) if mv else 0, "total=256_rejected_by_parser": int(mv.group(5)) if mv else 0}
+    vfails = re.findall(r"^KEYVALUEFAIL (.*?) :: (.*?) :: (.*)$", p.stderr, flags=re.M)
+    if vfails or not mv or int(mv.group(2)) == 0:
+        if vfails:
+            desc, result, text = vfails[0]
+            rep.violation("keytext-value-rt",
+                          "a DescriptorPublicKey built as a value within the BIP32 depth limit (%s) prints as %r, which FromStr does not give back: %s (%d such value(s))"
+                          % (desc, text[:160] + ("..." if len(text) > 160 else ""), result, len(vfails)),
+                          {"property": PID, "part": "round-trip", "key": "keytext-value-rt", "input": text, "value": desc,
+                           "result": result, "all": [{"value": a, "result": b, "printed": c} for a, b, c in vfails[:20]],
+                           "seed": seed, "tier": tier}, True)
+        else:
+            rep.violation("keytext-values", "the keytext engine reported no constructed values", {"property": PID, "broken_tie": "verif-harness keytext (KEYVALUES)"}, False)
+    if not m or int(m.group(1)) < 1500:
+        rep.violation("keytext-volume", "keytext engine produced too few cases: %s" % (p.stderr[-300:],),
+                      {"property": PID, "broken_tie": "verif-harness keytext"}, False)
+        return n_ob, 0
+    for f in ("Tables/KeyTextCasesGen.v", "Tables/KeyTextCasesDefs.v"):
+        c = vlib.coqc(f)
+        if c.returncode != 0:
+            raise RuntimeError("%s does not compile: %s" % (f, (c.stderr or c.stdout)[-1500:]))
+    c2 = vlib.coqc("Tables/KeyTextCasesCheck.v")
+    ok = c2.returncode == 0
+    if not ok:
+        c3 = vlib.coqc("Tables/KeyTextCasesDiag.v")
+        diffs = []
+        mm = re.search(r"=\s*(\[.*\])\s*:\s*list", c3.stdout, flags=re.S) if c3.returncode == 0 else None
+        if mm:
+            import ast
+            txt = re.sub(r"%(N|nat)", "", mm.group(1)).replace(";", ",")
+            try:
+                val = ast.literal_eval(re.sub(r"\s+", " ", txt))
+            except Exception:
+                val = []
+            for row in val:
+                (i, text, impl, model, ipr, mpr) = row
+                diffs.append({"index": i, "input": _bytes_str(text), "implementation_obs": list(impl), "model_obs": list(model),
+                              "implementation_printed": _bytes_str(ipr[2:]) if ipr[:1] == [1] else None,
+                              "implementation_reparse_equal": (ipr[1] == 1) if ipr[:1] == [1] else None,
+                              "model_printed": _bytes_str(mpr[2:]) if mpr[:1] == [1] else None})
+        # judge with the specification side: the round trip itself, on the real code
+        fail = None
+        for d in diffs:
+            if d["implementation_obs"][:1] == [2]:
+                fail = (d["input"], "DescriptorPublicKey::from_str panics")
+                break
+            if d["implementation_reparse_equal"] is False:
+                fail = (d["input"], "accepted, printed as %r, which does not parse back to an equal key" % d["implementation_printed"])
+                break
+        if fail is None and diffs:
+            # replay the differing texts and their printed forms through the real parser/printer once more
+            tmp = os.path.join(vlib.WORK, "c10-keytext-replay.txt")
+            os.makedirs(vlib.WORK, exist_ok=True)
+            cand = []
+            for d in diffs:
+                cand.append(d["input"])
+                if d["implementation_printed"]:
+                    cand.append(d["implementation_printed"])
+            open(tmp, "w").write("".join(t + "\n" for t in cand))
+            q = vlib.sh([hbin, "keytext", "1", tier, tmp], timeout=600)
+            for (idx, acc, pr, re_eq, pan) in re.findall(r"^KEYOBS (\d+) accepted=(\d) printed=(.*?) reparse_equal=(\S+) panic=(\d)$", q.stderr, flags=re.M):
+                if pan == "1" or (acc == "1" and re_eq == "0"):
+                    fail = (cand[int(idx)] if int(idx) < len(cand) else "", "round trip fails: printed=%s reparse_equal=%s panic=%s" % (pr, re_eq, pan))
+                    break
+                # the printed form must be a fixed point: printing the reparse gives the same text
+                if acc == "1" and pr != "-" and int(idx) < len(cand) and cand[int(idx)] in [d["implementation_printed"] for d in diffs] and pr != cand[int(idx)]:
+                    fail = (cand[int(idx)], "printed form is not a fixed point: prints again as %s" % pr)
+                    break
+        if fail:
+            rep.violation("keytext-rt", "key text round trip fails on the real code: %r %s" % (fail[0][:300], fail[1][:300]),
+                          {"property": PID, "part": "round-trip", "key": "keytext-rt", "input": fail[0],
+                           "differences": diffs, "seed": seed, "tier": tier}, True)
+        else:
+            rep.violation("keytext-tie", "key text model and DescriptorPublicKey parser/printer differ: %s" % json.dumps(diffs[:1])[:600],
+                          {"property": PID, "part": "key-text", "broken_tie": "keytext_cases_match_model (Tables/KeyTextCasesCheck.v)",
+                           "differences": diffs, "log": (c2.stderr or c2.stdout)[-500:] if not diffs else ""}, False)
+    return n_ob, n_ok + (1 if ok else 0)
+
+
 RT_REPLAY_KIND = {"miniscript/bare": "ms-bare", "miniscript/legacy": "ms-legacy", "miniscript/segwitv0": "ms-segwit",
                   "miniscript/tap": "ms-tap"}
 
@@ -411,13 +523,17 @@ def run(rep, tier, seed, replay):
     o, d = part_d(rep, hbin, tier, seed, cov)
     obligations += o
     discharged += d
+    o, d = part_e(rep, hbin, tier, seed, cov)
+    obligations += o
+    discharged += d
     rt_total, rt_fail = part_c(rep, hbin, tier, seed, cov)
     camp = cov.get("substitution_campaign", {})
     tab = cov.get("checksum_tables", {})
     evaluations = (tab.get("single_chars", 0) + tab.get("two_char_strings", 0) + tab.get("random_strings", 0) + tab.get("verify_cases", 0)
                    + camp.get("single_substitutions_all_positions_x_all_characters", 0) + camp.get("double_substitutions", 0)
                    + camp.get("in_group0_3or4_substitutions", 0) + camp.get("collision_sweep_checksums", 0)
-                   + cov.get("expression_tree", {}).get("cases", 0) + cov.get("miniscript_text_layer", {}).get("cases", 0) + rt_total)
+                   + cov.get("expression_tree", {}).get("cases", 0) + cov.get("miniscript_text_layer", {}).get("cases", 0)
+                   + cov.get("key_text_layer", {}).get("cases", 0) + rt_total)
     rep.coverage.update(cov)
     rep.coverage.update({
         "obligations": obligations, "discharged": discharged,
@@ -450,3 +566,12 @@ def run(rep, tier, seed, replay):
         "MsTextModel.v transcribes display.rs (as_node, fragment_name, conditional_fmt) and Miniscript::from_tree with the expression helpers it calls (tied on every run by Tables/MsTextCasesCheck.v)",
         "miniscript text theorems: keys and hashes are opaque atoms whose parser inverts their printer (parse (print x) = Some x) and, for the text-level theorems, whose printed form consists of name characters; Miniscript::from_ast is an arbitrary boolean check (the type check in the tie)",
     ]
+    # key text part (Part E)
+    rep.assumptions += [
+        "KeyTextModel.v transcribes impl FromStr for DescriptorPublicKey (parse_key_origin, parse_xkey_deriv, bip32::ChildNumber::from_str, depth limit) and the Display impls (tied on every run by Tables/KeyTextCasesCheck.v)",
+        "key text theorems: the cryptographic bodies (base58check xpub/tpub, hex points) are parameters with the hypothesis bodies_ok (parser inverts printer, alphanumeric, xpub/tpub prefix and >= 64 characters, 66/130 characters with prefix 02/03/04, 64 hex characters); the tie takes body validity, canonical text and depth from the bitcoin crate",
+    ]
+    rep.coverage["levels"]["key text: FromStr / Display of DescriptorPublicKey (Part E)"] = \
+        "proof (print-parse for all well-formed keys, parse-valid, fixed point, canonical form, no panic; bodies abstract) + tie in Coq"
+    rep.coverage["checker_cmd"] += " ; coqc Properties/C10KeyText.v ; verif-harness keytext | coqc Tables/KeyTextCases{Gen,Defs,Check}.v"
+    rep.coverage["rule"] += "; key text: DescriptorPublicKey::from_str structure or error class, Display text and reparse-equal flag on structurally generated valid keys, single keys, 56 kinds of mutations and directed (depth limit, short, non-ASCII) texts, compared with the model in Coq"
